@@ -103,7 +103,9 @@ def conformingTag (p : Policy) (t : Token) : Bool :=
   t.attrs.all fun a =>
     a.key != b!"style" && !isForcedKey a.key && acceptsAttr p t.data a &&
     (!(p.requireParseableURLs && isUrlPosition t.data a.key) ||
-       (!a.val.isEmpty && urlOk p a.val && (Url.parse a.val).map Url.print == some a.val))
+       (!a.val.isEmpty && urlOk p a.val && (Url.parse a.val).map Url.print == some a.val &&
+        -- `validURL` trims white space in Go's sense (Unicode) first: a value it would trim is not in normal form
+        Css.trimSpace a.val == a.val))
 
 def conformingDoc (p : Policy) (ts : List Token) : Bool :=
   wellNested ts &&
